@@ -27,7 +27,7 @@ LEVEL_TEXT = ("Lean 4 theorems over a transliteration of convert_legacy_task/con
               "objects/graphs/environments: convert_preserves_eval_partial + convertGraph_preserves_eval_partial (conversion + "
               "execution = legacy value whenever no dict value and no element of a non-task tuple needs evaluation: hypothesis "
               "`clean`), deps_exact (a node's dependencies are sufficient and each is necessary for its evaluation, through "
-              "nested containers/kwargs). The statement at full strength is REFUTED for the code as it is by two witnesses that "
+              "nested containers/kwargs), deps_exact_legacy_partial (clean => node.dependencies = get_dependencies). The statement at full strength is REFUTED for the code as it is by two witnesses that "
               "replay on /repo (known findings): dict values are not evaluated; non-task tuples are evaluated elementwise; the "
               "same witnesses separate node.dependencies from get_dependencies. Pickling: task_pickle_roundtrip / "
               "container_pickle_roundtrip (slot lists extracted from the AST on every run; every slot, in particular "
